@@ -1,0 +1,141 @@
+// SPDX-FileCopyrightText: 2023 The Pion community <https://pion.ly>
+// SPDX-License-Identifier: MIT
+
+//go:build verif
+
+package replaydetector
+
+// Machine-checked contracts for /verif (govc).  Comment-only.
+
+//@ arith int
+//@ field fixedBigInt bits owned
+
+// ---- fixedBigInt: abstract view bit(i); verified over bit-vectors (arith bv64), exported to the
+// ---- detectors (arith int) as the opaque predicates bit / valid.
+
+//@ opaque pure (s *fixedBigInt) bit(i uint) bool = i < s.n && (s.bits[i/64] >> (i%64)) & 1 == 1
+//@ pure (s *fixedBigInt) low() uint64 = ite(s.n - 64*uint(len(s.bits)-1) >= 64, 18446744073709551615, (1 << (s.n - 64*uint(len(s.bits)-1))) - 1)
+//@ opaque pure (s *fixedBigInt) valid() bool = 1 <= len(s.bits) && len(s.bits) < 1099511627776 &&
+//@      ((s.n == 0 && len(s.bits) == 1) || (64*uint(len(s.bits)-1) < s.n && s.n <= 64*uint(len(s.bits)))) &&
+//@      (s.msbMask & s.low()) == s.low()
+//@ pure shifted(b []uint64, j int, n uint) uint64 = ite(j-int(n/64) < 0, 0,
+//@      (b[j-int(n/64)] << (n%64)) | ite(j-int(n/64)-1 < 0, 0, b[j-int(n/64)-1] >> (64-n%64)))
+
+//@ func newFixedBigInt(n uint) (s *fixedBigInt)
+//@   arith bv64
+//@   option reveal=bit,valid
+//@   constructor
+//@   requires n < 1099511627776
+//@   ensures [fresh] s != nil && fresh(s)
+//@   ensures [n] s.n == n
+//@   ensures [valid] s.valid()
+//@   ensures [zero] forall i uint :: !s.bit(i)
+
+//@ func (s *fixedBigInt) Lsh(n uint)
+//@   arith bv64
+//@   option reveal=bit,valid
+//@   requires s.valid()
+//@   modifies s.bits[*]
+//@   ensures [valid] s.valid()
+//@   ensures [shift] forall k uint :: {s.bit(k)} s.bit(k) == (k < s.n && k >= n && old(s.bit(k-n)))
+//@   loop 1 invariant [range] -1 <= i && i <= len(s.bits)-1
+//@   loop 1 invariant [done] forall j int :: {s.bits[j]} i < j && j < len(s.bits) ==> s.bits[j] == old(shifted(s.bits, j, n))
+//@   loop 1 invariant [todo] forall j int :: {s.bits[j]} 0 <= j && j <= i ==> s.bits[j] == old(s.bits[j])
+
+//@ func (s *fixedBigInt) Bit(i uint) (r uint)
+//@   arith bv64
+//@   option reveal=bit,valid
+//@   pure
+//@   requires s.valid()
+//@   ensures [bit] (r == 1) == s.bit(i) && r <= 1
+
+//@ func (s *fixedBigInt) SetBit(i uint)
+//@   arith bv64
+//@   option reveal=bit,valid
+//@   requires s.valid()
+//@   modifies s.bits[*]
+//@   ensures [valid] s.valid()
+//@   ensures [set] forall k uint :: {s.bit(k)} s.bit(k) == (old(s.bit(k)) || (k == i && i < s.n))
+
+// ---- plain detector.  Ghost history: acc = numbers whose accept callback ran; any = some accept ran.
+
+//@ ghost slidingWindowDetector acc set[uint64]
+//@ ghost slidingWindowDetector any bool
+
+//@ pure (d *slidingWindowDetector) D() bool = d.mask != nil && d.mask.valid() && d.mask.n == d.windowSize &&
+//@      d.latestSeq <= d.maxSeq && d.accepted == d.any &&
+//@      (forall s uint64 :: {s in d.acc} s in d.acc ==> s <= d.latestSeq) &&
+//@      (d.any ==> d.latestSeq in d.acc) && (!d.any ==> d.latestSeq == 0 && d.acc == emptyset(uint64)) &&
+//@      (forall i uint :: {d.mask.bit(i)} d.mask.bit(i) == (i < d.windowSize && i <= d.latestSeq && (d.latestSeq - i) in d.acc))
+
+// The sliding-window rule of C05.
+//@ pure (d *slidingWindowDetector) fresh(seq uint64) bool = seq <= d.maxSeq && !(seq in d.acc) &&
+//@      (seq > d.latestSeq || d.latestSeq - seq < d.windowSize)
+
+//@ func New(windowSize uint, maxSeq uint64) (r ReplayDetector)
+//@   requires windowSize < 1099511627776
+//@   ensures [init] typeis(r, *slidingWindowDetector) && ptr(r, *slidingWindowDetector) != nil && ptr(r, *slidingWindowDetector).D() &&
+//@            !ptr(r, *slidingWindowDetector).any && ptr(r, *slidingWindowDetector).maxSeq == maxSeq &&
+//@            ptr(r, *slidingWindowDetector).windowSize == windowSize
+
+//@ func (d *slidingWindowDetector) Check(seq uint64) (accept func() bool, ok bool)
+//@   requires d.D()
+//@   ensures [noreplay] ok ==> seq <= d.maxSeq && !(seq in d.acc)
+//@   ensures [exact] d.maxSeq >= d.windowSize ==> (ok == d.fresh(seq))
+
+//@ func (d *slidingWindowDetector) Check$1() (latest bool)
+//@   requires d != nil && d.D() && seq <= d.maxSeq && !(seq in d.acc) && (seq > d.latestSeq || d.latestSeq - seq < d.windowSize)
+//@   modifies d.latestSeq, d.accepted, d.mask.bits[*], d.acc, d.any
+//@   ghost at return: d.acc = setadd(d.acc, seq); d.any = true
+//@   ensures [D] d.D()
+//@   ensures [head] d.latestSeq == ite(seq > old(d.latestSeq), seq, old(d.latestSeq))
+//@   ensures [latest] latest == (seq > old(d.latestSeq) || !old(d.any))
+//@   ensures [accepted] (seq in d.acc) && (forall s uint64 :: {s in d.acc} s in old(d.acc) ==> s in d.acc)
+
+// ---- wrapping detector.  M = maxSeq+1, half = maxSeq/2.  acc is pruned by every accept to the numbers at most
+// ---- half the space behind the newest accepted one (the side condition of C04).
+
+//@ ghost wrappedSlidingWindowDetector acc set[uint64]
+
+//@ pure (d *wrappedSlidingWindowDetector) M() mathint = d.maxSeq + 1
+//@ pure (d *wrappedSlidingWindowDetector) half() mathint = d.maxSeq / 2
+//@ pure (d *wrappedSlidingWindowDetector) behind(l mathint, s mathint) mathint = ite(l >= s, l - s, l - s + d.M())
+//@ pure (d *wrappedSlidingWindowDetector) back(l mathint, i mathint) mathint = ite(l >= i, l - i, l - i + d.M())
+//@ pure (d *wrappedSlidingWindowDetector) cfg() bool = d.maxSeq < 4611686018427387904 && d.M() >= 2*d.windowSize
+//@ pure (d *wrappedSlidingWindowDetector) Dw() bool = d.mask != nil && d.mask.valid() && d.mask.n == d.windowSize &&
+//@      (!d.init ==> d.acc == emptyset(uint64) && (forall i uint :: {d.mask.bit(i)} !d.mask.bit(i))) &&
+//@      (d.init ==> d.latestSeq <= d.maxSeq && (d.latestSeq in d.acc) &&
+//@           (forall s uint64 :: {s in d.acc} s in d.acc ==> s <= d.maxSeq && d.behind(d.latestSeq, s) <= d.half()) &&
+//@           (forall i uint :: {d.mask.bit(i)} d.mask.bit(i) == (i < d.windowSize && (d.back(d.latestSeq, i) in d.acc))))
+//@ pure (d *wrappedSlidingWindowDetector) older(seq uint64) bool = d.behind(d.latestSeq, seq) <= d.half()
+//@ pure (d *wrappedSlidingWindowDetector) newer(seq uint64) bool = d.behind(d.latestSeq, seq) > d.M() - d.half()
+
+//@ func WithWrap(windowSize uint, maxSeq uint64) (r ReplayDetector)
+//@   requires windowSize < 1099511627776
+//@   ensures [init] typeis(r, *wrappedSlidingWindowDetector) && ptr(r, *wrappedSlidingWindowDetector) != nil &&
+//@            ptr(r, *wrappedSlidingWindowDetector).Dw() && !ptr(r, *wrappedSlidingWindowDetector).init &&
+//@            ptr(r, *wrappedSlidingWindowDetector).maxSeq == maxSeq && ptr(r, *wrappedSlidingWindowDetector).windowSize == windowSize
+
+//@ func (d *wrappedSlidingWindowDetector) Check(seq uint64) (accept func() bool, ok bool)
+//@   requires d.cfg() && d.Dw()
+//@   ensures [noreplay] ok ==> seq <= d.maxSeq && !(seq in d.acc)
+//@   ensures [first] !d.init && d.maxSeq >= 4 ==> ok == (seq <= d.maxSeq)
+//@   ensures [first.tiny] !d.init && d.maxSeq < 4 ==> ok == (seq <= d.maxSeq)
+//@   ensures [exact] d.init && seq <= d.maxSeq && (d.older(seq) || d.newer(seq)) ==>
+//@            ok == (d.newer(seq) || (d.behind(d.latestSeq, seq) < d.windowSize && !(seq in d.acc)))
+//@   ensures [max] seq > d.maxSeq ==> !ok
+
+//@ func (d *wrappedSlidingWindowDetector) Check$1() (latest bool)
+//@   requires d != nil && d.cfg() && d.Dw() && seq <= d.maxSeq && !(seq in d.acc)
+//@   requires !d.init ==> diff == -1
+//@   requires d.init && diff >= 0 ==> diff == d.behind(d.latestSeq, seq) && diff < d.windowSize
+//@   requires d.init && diff < 0 ==> -diff == d.behind(seq, d.latestSeq) && -diff < d.M() - d.half()
+//@   modifies d.latestSeq, d.init, d.mask.bits[*], d.acc
+//@   ghost at return: forall s in [0, 18446744073709551616): d.acc[s] = ((s in d.acc) || s == seq) && d.behind(d.latestSeq, s) <= d.half()
+//@   ensures [Dw] d.Dw() && d.init
+//@   ensures [head] d.latestSeq == ite(diff < 0, seq, old(d.latestSeq))
+//@   ensures [latest] latest == (d.latestSeq == seq)
+//@   ensures [accepted] seq in d.acc
+
+//@ property C04: newFixedBigInt, fixedBigInt.Lsh, fixedBigInt.Bit, fixedBigInt.SetBit, New, slidingWindowDetector.Check, slidingWindowDetector.Check$1, WithWrap, wrappedSlidingWindowDetector.Check, wrappedSlidingWindowDetector.Check$1
+//@ property C05: newFixedBigInt, fixedBigInt.Lsh, fixedBigInt.Bit, fixedBigInt.SetBit, New, slidingWindowDetector.Check, slidingWindowDetector.Check$1, WithWrap, wrappedSlidingWindowDetector.Check, wrappedSlidingWindowDetector.Check$1
